@@ -73,9 +73,11 @@ SumS(rs, i) == IF i > Len(rs) THEN 0 ELSE rs[i].s + SumS(rs, i + 1)
 Bytes(rs) == SumS(rs, 1)
 MaxOf(S) == CHOOSE x \in S : \A y \in S : y <= x
 MinOf(S) == CHOOSE x \in S : \A y \in S : x <= y
+MaxLenOf(d) == MaxOf({Len(d[f]) : f \in DOMAIN d} \cup {0})
 RECURSIVE AscSeq(_)
 AscSeq(S) == IF S = {} THEN <<>> ELSE <<MinOf(S)>> \o AscSeq(S \ {MinOf(S)})
 
+MaxLen == MaxLenOf(dir)
 NoBatch == [id |-> 0]
 NoMerge == [on |-> FALSE]
 NoAdopt == [ph |-> "none"]
@@ -195,6 +197,10 @@ ApplyWritten(s, rs, f, i) ==
                    ELSE [idx |-> [s.idx EXCEPT ![r.k] = pos], total |-> s.total + cnt, reclaim |-> s.reclaim + old],
                    rs, f, i + 1)
 Applied(f) == ApplyWritten([idx |-> index, total |-> total, reclaim |-> reclaim], dir[f], f, 1)
+\* all records of the call in flight, in every file in ascending order (a batch flushed in several pieces)
+RECURSIVE ApplyFiles(_, _, _)
+ApplyFiles(s, fs, i) == IF i > Len(fs) THEN s ELSE ApplyFiles(ApplyWritten(s, dir[fs[i]], fs[i], 1), fs, i + 1)
+AppliedAll == ApplyFiles([idx |-> index, total |-> total, reclaim |-> reclaim], AscSeq(Fids), 1)
 
 Ack ==
   /\ st = "open" /\ pc = <<>> /\ cur # Idle
@@ -203,12 +209,17 @@ Ack ==
             /\ acked' = Append(acked, [w |-> cur.w, mid |-> cur.mid])
             /\ UNCHANGED batch
        [] cur.op = "noop" -> UNCHANGED <<index, total, reclaim, acked, batch>>
-       [] cur.op = "flush" ->      \* intermediate flush of a large batch: index updated, batch stays open
-            /\ index' = Applied(cur.f).idx /\ total' = Applied(cur.f).total /\ reclaim' = Applied(cur.f).reclaim
+       [] cur.op = "flush" ->      \* intermediate flush of a large batch: the batch stays open and (fix) the index is
+                                   \* not touched before Commit (Bug "BatchFlushPublishes": it was updated here)
+            /\ (IF Has("BatchFlushPublishes")
+                THEN index' = Applied(cur.f).idx /\ total' = Applied(cur.f).total /\ reclaim' = Applied(cur.f).reclaim
+                ELSE UNCHANGED <<index, total, reclaim>>)
             /\ batch' = [batch EXCEPT !.staged = <<cur.then>>]
             /\ UNCHANGED acked
        [] cur.op = "commit" ->
-            /\ index' = Applied(cur.f).idx /\ total' = Applied(cur.f).total /\ reclaim' = Applied(cur.f).reclaim
+            /\ (IF Has("BatchFlushPublishes")
+                THEN index' = Applied(cur.f).idx /\ total' = Applied(cur.f).total /\ reclaim' = Applied(cur.f).reclaim
+                ELSE index' = AppliedAll.idx /\ total' = AppliedAll.total /\ reclaim' = AppliedAll.reclaim)
             /\ acked' = Append(acked, [w |-> cur.w, mid |-> cur.mid])
             /\ batch' = NoBatch
   /\ cur' = Idle
@@ -234,6 +245,14 @@ FlushFile(sg) == IF FlushRotates(sg) THEN active + 1 ELSE active
 \* the write set of the whole batch so far (ghost)
 WriteSet(ops) == [k \in {ops[i].k : i \in 1..Len(ops)} |-> LastStaged(ops, k).v]
 
+\* whether key k currently exists from the batch's point of view: its own latest flushed record, else the index
+FlushedFor(k) == {<<f, i>> \in {<<f, i>> \in Fids \X (1..MaxLen) : i <= Len(dir[f])} :
+                     dir[f][i].mid = batch.mid /\ dir[f][i].k = k /\ dir[f][i].t # FIN}
+PresentForBatch(k) ==
+    IF Has("BatchFlushPublishes") \/ FlushedFor(k) = {} THEN index[k] # NoPos
+    ELSE LET last == CHOOSE p \in FlushedFor(k) : \A q \in FlushedFor(k) : q[1] < p[1] \/ (q[1] = p[1] /\ q[2] <= p[2])
+         IN dir[last[1]][last[2]].t = PUT
+
 \* Batch.Put / Batch.Delete: stage; if the staged data would no longer fit one file, flush what is staged
 \* (flushStagedAndUpdateFile: flush, index update, then rotate) and stage the new record alone
 BStage(k, v) ==
@@ -256,7 +275,7 @@ BStage(k, v) ==
              ELSE \* the key is already staged: rewrite its staged record in place
                   /\ batch' = [batch EXCEPT !.staged[i].v = v2, !.ops = newOps]
                   /\ UNCHANGED <<pc, cur>>
-        ELSE IF v = Nil /\ index[k] = NoPos THEN
+        ELSE IF v = Nil /\ ~PresentForBatch(k) THEN
           \* delete of a key that is neither staged nor stored: nothing to do
           /\ batch' = [batch EXCEPT !.ops = newOps] /\ UNCHANGED <<pc, cur>>
         ELSE IF flushFirst(0) THEN doFlush
@@ -360,7 +379,6 @@ Crash ==
 \* an acknowledged mutation must survive a power failure iff all its records are below the durable mark
 DurableMut(m) == \A f \in Fids : \A i \in 1..Len(dir[f]) : dir[f][i].mid = m => i <= durable[f]
 FloorPL == MaxOf({p \in 0..Len(acked) : \A j \in 1..p : DurableMut(acked[j].mid)})
-MaxLen == MaxOf({Len(dir[f]) : f \in Fids} \cup {0})
 
 \* power failure: additionally every file loses any tail beyond its durable prefix, possibly inside a record
 PowerLoss ==
